@@ -515,12 +515,19 @@ def block_diagonalize(
             for i, keep in to_keep.items()
         }
 
+        def sympy_mask(mask, shape):
+            # An identically zero block of H_0 has a single scalar eigenvalue
+            # and therefore a (1, 1) mask.
+            if mask.shape == shape:
+                return mask
+            return sympy.Matrix(np.broadcast_to(np.array(mask), shape))
+
         def diag(x, index):
             x = x[index] if isinstance(x, BlockSeries) else x
             if index[0] not in to_keep:
                 return x
             if isinstance(x, sympy.MatrixBase):
-                return x.multiply_elementwise(to_keep[index[0]])
+                return x.multiply_elementwise(sympy_mask(to_keep[index[0]], x.shape))
             if sparse.issparse(x):
                 return x.multiply(to_keep[index[0]])
             return x * to_keep[index[0]]
@@ -530,7 +537,9 @@ def block_diagonalize(
                 return zero
             x = x[index] if isinstance(x, BlockSeries) else x
             if isinstance(x, sympy.MatrixBase):
-                return x.multiply_elementwise(to_eliminate[index[0]])
+                return x.multiply_elementwise(
+                    sympy_mask(to_eliminate[index[0]], x.shape)
+                )
             if sparse.issparse(x):
                 return x.multiply(to_eliminate[index[0]])
             return x * to_eliminate[index[0]]
@@ -1579,7 +1588,7 @@ def _extract_diagonal(
     diags = []
     for block in h_0:
         if block is zero or block is np.ma.masked:
-            diags.append(np.array(0))
+            diags.append(np.array(sympy.S.Zero, dtype=object) if is_sympy else np.array(0))
             continue
         eigs = block.diagonal()
         if is_sympy:
